@@ -224,14 +224,15 @@ def mro(nb1: int, nb2: int, nb3: int, nb4: int, b11: int, b12: int, b21: int, b2
 @obligation(
     pid="C07", name="inherited", timeout=tiered(280, 1500),
     shards=lambda: [(f"shape={s},ax={a}", None, [dict(shape=s, ax=a)]) for s in range(4) for a in (False, True)],
-    pre=lambda shape, ax, ay, bx, by, cx, cy, dx, dy: 0 <= shape <= 3,
-    drives=[prop(Object, "inherited_members"), prop(ObjectAliasMixin, "all_members"), GetMembersMixin.__getitem__, Class.mro],
+    pre=lambda shape, ax, ay, bx, by, cx, cy, dx, dy, early: 0 <= shape <= 3,
+    drives=[prop(Object, "inherited_members"), prop(ObjectAliasMixin, "all_members"), GetMembersMixin.__getitem__, Class.mro, prop(Class, "resolved_bases"), prop(Alias, "inherited_members")],
     bounds={"hierarchies": "chain D(C(B(A))) / diamond D(B(A),C(A)) / D(B,C) unrelated / D(C(A),B(A)) mirrored diamond", "member names": "x, y", "placement": "every subset of {A,B,C,D} x {x,y}"},
-    value_symbolic=["presence of x and of y in each of the four classes (8 booleans)"], selectors=["hierarchy shape (driver-bound)"], stubs=STUBS,
-    must_cover=["inherited", "own-wins", "absent"],
-    grid=lambda seed: [dict(shape=s, ax=True, ay=False, bx=False, by=True, cx=True, cy=True, dx=False, dy=False) for s in range(4)],
+    value_symbolic=["presence of x and of y in each of the four classes (8 booleans)", "early: the subclass is created and queried BEFORE its bases are loaded, then queried again (two-step history)"],
+    selectors=["hierarchy shape (driver-bound)"], stubs=STUBS,
+    must_cover=["inherited", "own-wins", "absent", "queried-before-bases-were-loaded", "inherited-through-aliased-class"],
+    grid=lambda seed: [dict(shape=s, ax=True, ay=False, bx=False, by=True, cx=True, cy=True, dx=False, dy=False, early=e) for s in range(4) for e in (False, True)],
 )
-def inherited(shape: int, ax: bool, ay: bool, bx: bool, by: bool, cx: bool, cy: bool, dx: bool, dy: bool) -> bool:
+def inherited(shape: int, ax: bool, ay: bool, bx: bool, by: bool, cx: bool, cy: bool, dx: bool, dy: bool, early: bool) -> bool:
     """inherited_members / all_members / cls[name] == what getattr finds along the real classes' __mro__."""
     shapes = [
         {"A": [], "B": ["A"], "C": ["B"], "D": ["C"]},
@@ -245,14 +246,28 @@ def inherited(shape: int, ax: bool, ay: bool, bx: bool, by: bool, cx: bool, cy: 
     m = Module("m")
     col.set_member("m", m)
     classes, real = {}, {}
-    for name in "ABCD":
+    for name in ("DCBA" if early else "ABCD"):
         c = Class(name, bases=["m." + b for b in bases_of[name]])
         m.set_member(name, c)
         for i, mn in enumerate("xy"):
             if has[name][i]:
                 c.set_member(mn, Attribute(mn, value=name))
         classes[name] = c
+        if early:
+            # the module defining the bases is not loaded yet: queries answer with what is known so far, and must not freeze that answer
+            cover("queried-before-bases-were-loaded")
+            try:
+                c.mro()
+            except ValueError:
+                pass
+            c.inherited_members  # noqa: B018
+            c.all_members  # noqa: B018
+    for name in "ABCD":
         real[name] = type(name, tuple(real[b] for b in bases_of[name]), {mn: name for i, mn in enumerate("xy") if has[name][i]})
+    # the same subclass reached through a re-export in a second module
+    n = Module("n")
+    col.set_member("n", n)
+    n.set_member("D", Alias("D", "m.D"))
     for name in "ABCD":
         c = classes[name]
         inh = c.inherited_members
@@ -287,4 +302,15 @@ def inherited(shape: int, ax: bool, ay: bool, bx: bool, by: bool, cx: bool, cy: 
                 return fail(f"{name}.{mn}: resolves to {al.final_target.path}, CPython finds {owner}.{mn}")
             if c[mn].final_target is not classes[owner].members[mn] or allm[mn].final_target is not classes[owner].members[mn]:
                 return fail(f"{name}.{mn}: cls[name]/all_members disagree with inherited_members")
+            if name == "D":
+                # through the aliased class: same member, under the alias's path, still flagged as inherited
+                via = n.members["D"]
+                for got, how in ((via.inherited_members.get(mn), "inherited_members"), (via.all_members.get(mn), "all_members"), (via[mn], "cls[name]")):
+                    if got is None or not got.is_alias:
+                        return fail(f"n.D.{mn} ({how}): missing through the aliased class")
+                    if not got.inherited:
+                        return fail(f"n.D.{mn} ({how}): not flagged as inherited when the class is reached through an alias")
+                    if got.path != f"n.D.{mn}" or got.final_target is not classes[owner].members[mn]:
+                        return fail(f"n.D.{mn} ({how}): path {got.path} / final target {got.final_target.path}")
+                cover("inherited-through-aliased-class")
     return True
